@@ -76,6 +76,9 @@ type Interp struct {
 	hashes   []*hashModel
 	tolerant int // >0 while running package initialisers
 
+	sums    []*hashSum
+	lastNow *smt.Term
+
 	tmpDefined map[string]bool
 	allocSeen  map[string]bool
 	funcsSeen  map[string]bool
